@@ -5,7 +5,7 @@
    Only statements; every proof is `exact <lemma>`. *)
 From Coq Require Import List ZArith QArith Qcanon Bool Arith.
 From Dimod Require Import Base.Util Model.Poly Model.Comb Gen.Gen_Gates Model.Gates
-  Proofs.GatesFacts Props.Comb Model.Knap Proofs.KnapFacts Model.MultCircuit Proofs.MultFacts Model.Qap Proofs.QapFacts Model.Magic Proofs.MagicFacts Model.Sat Proofs.SatFacts.
+  Proofs.GatesFacts Props.Comb Model.Knap Proofs.KnapFacts Model.MultCircuit Proofs.MultFacts Proofs.MultArith Proofs.MultAttain Proofs.MultAll Model.Qap Proofs.QapFacts Model.Magic Proofs.MagicFacts Model.Sat Proofs.SatFacts.
 Import ListNotations.
 
 (* energy 0 on exactly the rows of the truth table, >= 1 on every other row (strength 1) *)
@@ -182,17 +182,26 @@ Theorem C17_sim_agree :
 Proof. exact sim_agree. Qed.
 Print Assumptions C17_sim_agree.
 
-(* arithmetic correctness for any size whose (finite) computed check succeeds ... *)
-Theorem C17_mult_arith :
-  forall n m, mult_ok_size n m = true ->
-    forall a : wassign, all_sat (circuit n m) a = true ->
-      bits_val (prod_bits n m a) = (bits_val (a_bits n a) * bits_val (b_bits m a))%Z.
-Proof. exact mult_arith. Qed.
-Print Assumptions C17_mult_arith.
+(* arithmetic correctness for ALL n, m >= 2, by induction over the rows of the adder array:
+   an assignment satisfying every gate has product bits encoding a * b *)
+Theorem C17_mult_arith_all :
+  forall (n m : nat) (a : wassign),
+    (2 <= m)%nat -> all_sat (circuit n m) a = true -> (2 <= n)%nat ->
+    bits_val (prod_bits n m a) = (bits_val (a_bits n a) * bits_val (b_bits m a))%Z.
+Proof. exact mult_arith_all. Qed.
+Print Assumptions C17_mult_arith_all.
 
-(* ... which it does for 2 <= n, m <= 6.  PARTIAL: no induction over the adder array for all sizes. *)
-Theorem C17_multiplication_circuit_partial :
-  forall n m, (2 <= n <= 6)%nat -> (2 <= m <= 6)%nat ->
+(* every input pair has a satisfying assignment (row i = ripple-carry sum of a_i * b and the shifted row i-1) *)
+Theorem C17_mult_attained :
+  forall (n m : nat) (abits bbits : list bool),
+    (2 <= n)%nat -> (2 <= m)%nat -> all_sat (circuit n m) (val n m abits bbits) = true.
+Proof. exact val_all_sat. Qed.
+Print Assumptions C17_mult_attained.
+
+(* multiplication_circuit(n, m), all n, m >= 2: minimised over the internal wires the energy is 0
+   exactly when the product bits encode a * b, and at least 1 otherwise *)
+Theorem C17_multiplication_circuit :
+  forall n m, (2 <= n)%nat -> (2 <= m)%nat ->
     (forall a : wassign, (0 <= circuit_energy (circuit n m) a)%Z) /\
     (forall a : wassign, circuit_energy (circuit n m) a = 0%Z ->
        bits_val (prod_bits n m a) = (bits_val (a_bits n a) * bits_val (b_bits m a))%Z) /\
@@ -201,8 +210,8 @@ Theorem C17_multiplication_circuit_partial :
        (1 <= circuit_energy (circuit n m) a)%Z) /\
     (forall abits bbits, length abits = n -> length bbits = m ->
        exists a : wassign, a_bits n a = abits /\ b_bits m a = bbits /\ circuit_energy (circuit n m) a = 0%Z).
-Proof. exact multiplication_circuit_small. Qed.
-Print Assumptions C17_multiplication_circuit_partial.
+Proof. exact multiplication_circuit_all. Qed.
+Print Assumptions C17_multiplication_circuit.
 
 (* the generator AS IT IS with a 1-bit argument (open finding): zero energy, a = b = 0, product bits = 4 *)
 Theorem C17_multiplication_circuit_one_bit_refuted :
